@@ -98,6 +98,8 @@ def jobs(tier, seed):
     for pr in (None, "rc", "p", "ia"):
         add("c01", "C01.build", dict(R=3, L=3, dtype="int64", probe=pr))
     add("c01", "C01.mismatch", dict(R=3, L=2, how="array"))
+    add("c01", "C01.numpy", dict(R=3, L=2, what="from"))          # a matrix converted (and a row selection of it) under both widths, one after the other
+    add("c01", "C01.numpy", dict(R=3, L=2, what="to"))
     add("c04", "C04.ufunc", dict(R=3, L=2, op="subtract", kind="rc", dt1="int64", dt2="int64", sk=None))
     add("c04", "C04.ufunc", dict(R=3, L=2, op="add", kind="rr", dt1="uint8", dt2="int8", sk=None))
     add("c04", "C04.ufunc", dict(R=3, L=2, op="subtract", kind="rr_bad", dt1="int64", dt2="int64"))
